@@ -853,7 +853,7 @@ func (x *ctx) exploreBoundary() {
 func Run(r *mc.Run) {
 	Quiet()
 	r.Level = "exploration"
-	r.Rule = "every forged header is a value vector over the dimensions (vote subset of the entitled members; one vote mutation: duplicate ×2/×3, replayed credential of another round index/step/round, signature over another hash, weight +1/×2/2^32-1/0 per target voter, a non-member vote: out-of-range index/house/offline/zero-stake, or a BORROWED CREDENTIAL: for every ordered pair (borrower X [quick: the first or the last member; counts of the lender and recomputed; other step / index from one lender], lender Y) of entitled members X's entry — own voter index, own BLS signature, summed into the aggregate — carries the very proof bytes of Y's genuine vote (or Y's proof of the prevote step / of the next round index) and declares Y's seat count / X's own seat count / the count Y's VRF output yields with X's stake, placed after or before all other entries; whether Y's genuine vote is listed too — borrowed next to the original, before or after it — or not — borrowed alone — is the vote-subset dimension it is paired with; header-declared ValidatorThreshold, ProposerThreshold, CertValThreshold ∈ {0,1,10,protocol,×2,2^64-1} with credentials left honest or recomputed under the declared value; aggregate signature ∈ {listed, distinct signers, one dropped, other payload, infinity, empty, undecodable, non-member's}; UconValidators.RoundIndex ∈ {same, other with replayed votes, other with re-votes}; proposer ∈ {honest, j=0, wrong priority, seats+1, non-member, house, offline, proof of another index, another entitled member's proof of this index with the seat count and priority its output yields with the proposer's stake}); explored per fixture: the full product (subset × ValidatorThreshold × aggregate) + the full product of every pair of dimensions, others honest [+ three triples in thorough]; the borrowed credentials are paired with the vote subset [thorough: also with the aggregate, the round index of the vote record and the declared ValidatorThreshold]; certificate-round scenario: full product (certificate subset × CertValThreshold declared by the planted look-back header × certificate aggregate) + (precommit subset × certificate subset); each header is built with real keys and given to the real VerifyHeader(seal) (single-deviation headers also to VerifySeal and VerifySideChainHeader; certificate headers also to VerifySeal and VerifyAcHeader) and to the independent quorum calculator; non-trivial = differs from the honest header; distinct = distinct value vectors actually built || LOOK-BACK SEPARATION: in every fixture the stake look-back header, the seed look-back header, the parent, the block itself, every other header (and, certificate rounds, the certificate stake look-back header) commit to DIFFERENT validator sets (other stakes ⇒ other seat counts and other voter indexes, a record without stake in the look-back set has stake elsewhere, one validator exists in that set only) and record different seeds; a case is a header built only from honest building blocks whose proposer credential / precommits / certificate votes are drawn against (set of header X, seed of header Y): full product proposer(X∈5 × Y∈5 × {first entitled record, that set's newcomer}) × precommits(X∈5 × Y∈5) [certificate fixture: + certificate votes (X∈6 × Y∈5) × precommit X; quick tier takes the two planes of the first product there]; each header goes through VerifyHeader, VerifySeal, VerifySideChainHeader, VerifyHeaders with the header alone and VerifyHeaders with SeedLookBack / StakeLookBack / StakeLookBack+3 preceding headers in the batch over a chain that does not have them yet (look-back headers resolved from `parents`) [+ VerifyAcHeader]; exactly one vector is the honest header (must be accepted everywhere), the others are decided by the same calculator (which knows only the protocol's look-back positions) || VERIFIER HISTORY: family of headers re-using material of another header: blocks B1 and B2 of the same proposer for the same (round, index) with different transactions × vote record at the proposal's index / re-voted at the next × credentials of this/the other index × signatures+aggregate over this/the sibling's hash × at this/the other index, + the same hash with one / no precommit [certificate fixture: precommits own/sibling's × certificate signatures over own/sibling's hash × own/other index, + one / no certificate vote]; every sequence of length 1 and 2 over (family × entry points) [quick: entry points equal or one of them VerifyHeader; pairs of two rejectable headers only as the same header twice; last header on B2, the B1 half being its mirror image] and every sequence of length 3 (thorough 4) over a core sub-family × 2 entry points runs on ONE fresh Server; the last verdict of every sequence must equal the calculator's and the verdict of an instance that verified nothing else; a wrong verdict is re-run twice and its history minimised before it is reported; the family also contains, on the sibling block, the borrowed-credential headers (every entitled member but the lender — the member with the most seats — lists the lender's proof under its own key with the seat count the lender's output yields with its own stake; the lender's genuine vote absent / listed first [thorough: / listed last]; precommits in the precommit fixture, certificate votes in the certificate fixture), and the block of the fixture's proposer under ANOTHER member's proposer credential together with that member's own honest block, so that every header of the family that lists the lender's genuine vote (that carries the lender's own proposer credential) precedes them on the same Server, and for each of them and the honest header, through every entry point, a sequence that starts with the lender's genuine vote MESSAGE handled by the live vote path (Voter.processVoteMsg -> Server.verifySortition) of the same Server wired as a mining node (hook VerifC03P2NewNode) || QUORUM FUNCTION: ucon.OverThreshold (the function verifyVotes calls for precommits and certificate votes) against the exact integer reference ⌊685·T/1000⌋ / ⌊585·T/1000⌋ for EVERY committee size T = 0..100000 (thorough: 0..5000000) plus the boundary sizes 2^k±3 (k ≤ 33), n·10^e±3 (e = 3..9) and the sizes around the largest committee whose quorum fits a uint32, every weight in {0, 1, q-2..q+2, T-1, T, T+1, 2^32-2, 2^32-1} || SCALED PROTOCOL VERSIONS: the shipped versions all use committee sizes 2000 / 4000; fixtures under versions of the harness with ValidatorThreshold T ∈ {999, 1999, 2500} (thorough: + 1001, 3001) and CertValThreshold 2T-1: whale configurations b (whale alone exactly at the quorum) and b- (just below) with the products (vote subset × aggregate) and (vote subset × round index), every single-deviation header through all 7 entry points (header batches included), and the certificate scenario of four equal members [quick: T = 2500, (precommit subset × certificate subset) + (certificate subset × certificate aggregate); thorough: every T, the whole certificate alphabet]" + knownRule
+	r.Rule = "every forged header is a value vector over the dimensions (vote subset of the entitled members; one vote mutation: duplicate ×2/×3, replayed credential of another round index/step/round, signature over another hash, weight +1/×2/2^32-1/0 per target voter, a non-member vote: out-of-range index/house/offline/zero-stake, or a BORROWED CREDENTIAL: for every ordered pair (borrower X [quick: the first or the last member; counts of the lender and recomputed; other step / index from one lender], lender Y) of entitled members X's entry — own voter index, own BLS signature, summed into the aggregate — carries the very proof bytes of Y's genuine vote (or Y's proof of the prevote step / of the next round index) and declares Y's seat count / X's own seat count / the count Y's VRF output yields with X's stake, placed after or before all other entries; whether Y's genuine vote is listed too — borrowed next to the original, before or after it — or not — borrowed alone — is the vote-subset dimension it is paired with; header-declared ValidatorThreshold, ProposerThreshold, CertValThreshold ∈ {0,1,10,protocol,×2,2^64-1} with credentials left honest or recomputed under the declared value; aggregate signature ∈ {listed, distinct signers, one dropped, other payload, infinity, empty, undecodable, non-member's}; UconValidators.RoundIndex ∈ {same, other with replayed votes, other with re-votes}; proposer ∈ {honest, j=0, wrong priority, seats+1, non-member, house, offline, proof of another index, another entitled member's proof of this index with the seat count and priority its output yields with the proposer's stake}); explored per fixture: the full product (subset × ValidatorThreshold × aggregate) + the full product of every pair of dimensions, others honest [+ three triples in thorough]; the borrowed credentials are paired with the vote subset [thorough: also with the aggregate, the round index of the vote record and the declared ValidatorThreshold]; certificate-round scenario: full product (certificate subset × CertValThreshold declared by the planted look-back header × certificate aggregate) + (precommit subset × certificate subset); each header is built with real keys and given to the real VerifyHeader(seal) (single-deviation headers also to VerifySeal and VerifySideChainHeader; certificate headers also to VerifySeal and VerifyAcHeader) and to the independent quorum calculator; non-trivial = differs from the honest header; distinct = distinct value vectors actually built || LOOK-BACK SEPARATION: in every fixture the stake look-back header, the seed look-back header, the parent, the block itself, every other header (and, certificate rounds, the certificate stake look-back header) commit to DIFFERENT validator sets (other stakes ⇒ other seat counts and other voter indexes, a record without stake in the look-back set has stake elsewhere, one validator exists in that set only) and record different seeds; a case is a header built only from honest building blocks whose proposer credential / precommits / certificate votes are drawn against (set of header X, seed of header Y): full product proposer(X∈5 × Y∈5 × {first entitled record, that set's newcomer}) × precommits(X∈5 × Y∈5) [certificate fixture: + certificate votes (X∈6 × Y∈5) × precommit X; quick tier takes the two planes of the first product there]; each header goes through VerifyHeader, VerifySeal, VerifySideChainHeader, VerifyHeaders with the header alone and VerifyHeaders with SeedLookBack / StakeLookBack / StakeLookBack+3 preceding headers in the batch over a chain that does not have them yet (look-back headers resolved from `parents`) [+ VerifyAcHeader]; exactly one vector is the honest header (must be accepted everywhere), the others are decided by the same calculator (which knows only the protocol's look-back positions) || VERIFIER HISTORY: family of headers re-using material of another header: blocks B1 and B2 of the same proposer for the same (round, index) with different transactions × vote record at the proposal's index / re-voted at the next × credentials of this/the other index × signatures+aggregate over this/the sibling's hash × at this/the other index, + the same hash with one / no precommit [certificate fixture: precommits own/sibling's × certificate signatures over own/sibling's hash × own/other index, + one / no certificate vote]; every sequence of length 1 and 2 over (family × entry points) [quick: entry points equal or one of them VerifyHeader; pairs of two rejectable headers only as the same header twice; last header on B2, the B1 half being its mirror image] and every sequence of length 3 (thorough 4) over a core sub-family × 2 entry points runs on ONE fresh Server; the last verdict of every sequence must equal the calculator's and the verdict of an instance that verified nothing else; a wrong verdict is re-run twice and its history minimised before it is reported; the family also contains, on the sibling block, the borrowed-credential headers (every entitled member but the lender — the member with the most seats — lists the lender's proof under its own key with the seat count the lender's output yields with its own stake; the lender's genuine vote absent / listed first [thorough: / listed last]; precommits in the precommit fixture, certificate votes in the certificate fixture), and the block of the fixture's proposer under ANOTHER member's proposer credential together with that member's own honest block, so that every header of the family that lists the lender's genuine vote (that carries the lender's own proposer credential) precedes them on the same Server, and for each of them and the honest header, through every entry point, a sequence that starts with the lender's genuine vote MESSAGE handled by the live vote path (Voter.processVoteMsg -> Server.verifySortition) of the same Server wired as a mining node (hook VerifC03P2NewNode) || QUORUM FUNCTION: ucon.OverThreshold (the function verifyVotes calls for precommits and certificate votes) against the exact integer reference ⌊685·T/1000⌋ / ⌊585·T/1000⌋ for EVERY committee size T = 0..100000 (thorough: 0..5000000) plus the boundary sizes 2^k±3 (k ≤ 33), n·10^e±3 (e = 3..9) and the sizes around the largest committee whose quorum fits a uint32, every weight in {0, 1, q-2..q+2, T-1, T, T+1, 2^32-2, 2^32-1} || SCALED PROTOCOL VERSIONS: the shipped versions all use committee sizes 2000 / 4000; fixtures under versions of the harness with ValidatorThreshold T ∈ {999, 1999, 2500} (thorough: + 1001, 3001) and CertValThreshold 2T-1: whale configurations b (whale alone exactly at the quorum) and b- (just below) with the products (vote subset × aggregate) and (vote subset × round index), every single-deviation header through all 7 entry points (header batches included), and the certificate scenario of four equal members [quick: T = 2500, (precommit subset × certificate subset) + (certificate subset × certificate aggregate); thorough: every T, the whole certificate alphabet]" + vrfInputRule + rekeyRule + knownRule
 	var plan []runCfg
 	tc, mn := uint64(params.NetworkIdForTestCase), uint64(params.MainNetId)
 	if r.Quick() {
@@ -895,11 +895,17 @@ func Run(r *mc.Run) {
 	r.Assume("verifier history: a 'fresh instance' is ucon.NewVRFServer (empty BlsVerifier caches); histories are sequences of header verifications (no mining), plus the sequences that start with ONE vote message — the genuine vote of the member with the most seats — handled by the live vote path of the same Server; state kept in package-level variables of the node is shared by every instance of the process, so for such state only the independent calculator (not the fresh-instance comparison) discriminates")
 	r.Assume("header batches: the headers preceding the header under verification are synthetic chain headers signed by a fixed key and verified without seal check; only the last result of a batch is judged")
 	r.Assume("quorum rule: the quorum of a committee of T seats is ⌊0.685·T⌋ (precommits) / ⌊0.585·T⌋ (certificate votes) — the fraction truncated, as the unchanged code's uint32(float64(T)·fraction) does; where fraction·T is an integer and the IEEE double product falls one ulp short of it the code's quorum is one seat lower: tolerated in the quorum-function comparison (the decision must then equal the software-computed IEEE value of that expression), counted and listed in the evidence; it concerns no shipped committee size and none of the scaled fixtures")
+	r.Assume("VRF input: the protocol's sortition message is seed(32) ‖ step(4, big endian) ‖ round index(4, big endian) (layout of the unchanged ucon.MakeM); the header calculator encodes it itself and never calls ucon.MakeM; the VRF library (crypto/vrf/secp256k1 ProofToHash) is trusted")
 	r.Assume("scaled protocol versions are entries the harness adds to params.Versions (copy of the current version, ValidatorThreshold = T, CertValThreshold = 2T-1, own version number 1000000+T carried by the fixture's headers); the shipped tables are not modified")
 	fixtures := map[string]interface{}{}
 	ws := &witnesses{best: map[string]*witness{}}
 	defer ws.flush(r)
 	params.InitNetworkId(tc)
+	// the VRF input first: when the implementation's message is not the protocol's, calculator and verifier disagree
+	// on every credential and no header verdict is comparable
+	if !exploreVrfInput(r) {
+		return
+	}
 	exploreQuorum(r, ws)
 	for _, p := range plan {
 		if r.Expired() {
@@ -962,6 +968,10 @@ func Run(r *mc.Run) {
 		if histHere && !r.Expired() {
 			x.exploreHist()
 			phase("verifier history")
+			if !p.cert {
+				x.exploreRekey()
+				phase("key rotation")
+			}
 		}
 		if p.cert {
 			var jobs []job
@@ -1052,6 +1062,12 @@ func Replay(r *mc.Run, v *mc.Violation) {
 		return
 	case kindQuorum:
 		replayQuorum(r, v, bs)
+		return
+	case kindVrfInput:
+		replayVrfInput(r, v, bs)
+		return
+	case kindRekey:
+		replayRekey(r, v, bs)
 		return
 	}
 	var s Spec
